@@ -51,7 +51,7 @@ use crate::{
         rangeint::{ri8, RFrom},
         t::{self, C},
     },
-    Error, Timestamp, Zoned,
+    Error, Timestamp, Unit, Zoned,
 };
 
 /// The default date time parser that we use throughout Jiff.
@@ -1297,7 +1297,25 @@ impl DateTimePrinter {
         zdt: &Zoned,
         wtr: W,
     ) -> Result<(), Error> {
-        self.print_civil_with_offset(zdt.datetime(), Some(zdt.offset()), wtr)
+        // RFC 2822 only supports offsets with a precision of minutes, and
+        // there is no time zone annotation from which a more precise offset
+        // could be recovered. So the civil datetime we print has to agree
+        // with the offset we print (which is rounded to the nearest minute),
+        // and not with the zoned datetime's actual offset. Otherwise, the text
+        // denotes a different instant than the one given. (When the offset is
+        // so close to its limit that it can't be rounded, we use it as is.)
+        let offset = zdt.offset();
+        if zdt.year() < 0 {
+            // This is an error. Report it for the datetime as given.
+            return self.print_civil_with_offset(
+                zdt.datetime(),
+                Some(offset),
+                wtr,
+            );
+        }
+        let offset = offset.round(Unit::Minute).unwrap_or(offset);
+        let dt = offset.to_datetime(zdt.timestamp());
+        self.print_civil_with_offset(dt, Some(offset), wtr)
     }
 
     /// Print a `Timestamp` datetime to the given writer.
